@@ -900,6 +900,14 @@ func (fr *Frame) enterLoop(li *loopInfo, h *ssa.BasicBlock, preds []*ssa.BasicBl
 			}
 			c.assume(hs.reach, g)
 		}
+		for _, u := range li.spec.Uses {
+			g, err := c.useInstance(u, en)
+			if err != nil {
+				c.errorf("%s loop %d use %q: %v", fr.fn.Name(), li.ord, u.Src, err)
+				continue
+			}
+			c.assume(hs.reach, g)
+		}
 		for _, d := range li.spec.Decreases {
 			t, err := en.Eval(d.E)
 			if err != nil {
@@ -1971,6 +1979,11 @@ func (fr *Frame) next(x *ssa.Next, st *State) {
 		c.emit(fmt.Sprintf("(assert (=> %s (and (<= 1 %s) (<= %s 4) (<= (+ %s %s) (%s.len %s)) (<= 0 %s) (<= %s 1114111) (=> (< %s 128) (and (= %s 1) (= %s %s))) (=> (>= %s 128) (>= %s 128)))))",
 			okN, w, w, pos, w, S, s.S, r, r, b0, w, r, b0, b0, r))
 		c.assume("true", app(">=", pos, "0"))
+		// range over a string and []rune(string) are the same UTF-8 decoding: the runes of the prefix consumed
+		// after this step are the runes of the prefix consumed before it, followed by this rune
+		if S == "Sq_Int" {
+			c.emit(fmt.Sprintf("(assert (=> %s (= (utf8.dec (Sq_Int.take %s (+ %s %s))) (Sq_Int.cat (utf8.dec (Sq_Int.take %s %s)) (Sq_Int.unit %s)))))", okN, s.S, pos, w, s.S, pos, r))
+		}
 		c.heapSet(st, key, ite(okN, app("+", pos, w), pos))
 		fr.vals[x] = Val{Tup: []Val{{T: Term{okN, SBool, tBool}}, {T: Term{pos, SInt, tup.At(1).Type()}}, {T: Term{r, SInt, tup.At(2).Type()}}}}
 		return
